@@ -105,12 +105,12 @@ pub fn spec_for(property: &str) -> Option<CheckSpec> {
         "C07" => CheckSpec {
             property: "C07".into(),
             level: "exploration",
-            profiles: vec![p("seq", 3), p("seq-maint", 3), p("seq-filter", 1), p("seq-manyversions", 1)],
+            profiles: vec![p("seq", 2), p("seq-maint", 2), p("restart", 1), p("crash-kill", 2), p("crash-power", 1), p("iofault", 2), p("cancel", 1)],
             quick_runs: 8_000,
             thorough_runs: 400_000,
             quick_budget_s: 60,
             thorough_budget_s: 600,
-            nontrivial_rule: "monitor over every explored trace: (a) no write to a *.blob below the end of the bytes written so far, no truncate or re-create of a *.blob; (b) at every session boundary each blob file equals the shadow copy built from the tapped writes (in the work dir or unchanged under corrupted/), nothing disappears; (c) no blob id is created twice; (d) no create/write/truncate is attributed to a query operation. Non-trivial = >= 3 data operations and > 20 I/O events; distinct = distinct I/O event signature",
+            nontrivial_rule: "monitor over every explored trace of the sequential, restart, crash (kill and power loss, recovery, quarantine), I/O-fault and cancellation profiles: (a) no write to a *.blob below the end of the bytes written so far, no truncate or re-create of a *.blob; (b) at every session boundary each blob file equals the shadow copy built from the tapped writes (in the work dir or unchanged under corrupted/), nothing disappears; (c) no blob id is created twice; (d) no create/write/truncate is attributed to a query operation. Non-trivial = >= 3 data operations and > 20 I/O events; distinct = distinct I/O event signature",
             nontrivial: nt_files,
             assumptions: a,
             expected_probes: vec![],
@@ -144,7 +144,7 @@ pub fn spec_for(property: &str) -> Option<CheckSpec> {
         "C15" => CheckSpec {
             property: "C15".into(),
             level: "exploration",
-            profiles: vec![p("seq", 4), p("seq-maint", 4), p("seq-filter", 1)],
+            profiles: vec![p("seq", 4), p("seq-maint", 4), p("seq-filter", 1), p("restart", 1), p("crash-kill", 2)],
             quick_runs: 8_000,
             thorough_runs: 400_000,
             quick_budget_s: 60,
